@@ -9,6 +9,11 @@ def parseNats15 (s : String) : Option (List Nat) :=
 op: reg <cap> <taken: code per slot, 0 = empty> <ids: code per thread> <schedule: t,t,...>
 Whether the lookup is repeated under the lock is what the regenerated source facts say. -/
 def stepC15 (_ : Unit) (ws : List String) : Unit × String :=
+  -- `nregp` / `nregx`: the same histories driven through ptt.NewRegister (the model is the same)
+  let ws := match ws with
+    | "nregp" :: r => "regp" :: r
+    | "nregx" :: r => "regx" :: r
+    | _ => ws
   let out := match ws with
     | ["reg", cap, tk, ids, sc] =>
         match cap.toNat?, parseNats15 tk, parseNats15 ids, parseNats15 sc with
